@@ -150,7 +150,148 @@ fn replace_ident(text: &str, name: &str, with: &str) -> String {
 pub struct C09;
 
 impl C09 {
+    /// the same type name exported by three to five files of a directory tree of uneven depth (models/admin/base.ts,
+    /// models/admin/user.ts, models/user.ts, user.ts, ...), every one with its own content and its own parser: whatever the
+    /// paths share, the types stay apart
+    fn same_name_tree_case(&self, s: &mut Src) -> C09Case {
+        use crate::den::Prop;
+        let tree = ["models/admin/base", "models/admin/user", "models/user", "user", "models/base", "admin/user", "lib/models/user", "models/admin/deep/user"];
+        let n = s.range(3, 5);
+        let mut picked: Vec<&str> = vec![];
+        let start = s.below(tree.len());
+        for k in 0..tree.len() {
+            let t = tree[(start + k) % tree.len()];
+            if picked.len() < n && s.chance(2, 3) {
+                picked.push(t);
+            }
+        }
+        let mut k = 0;
+        while picked.len() < 3 {
+            if !picked.contains(&tree[k]) {
+                picked.push(tree[k]);
+            }
+            k += 1;
+        }
+        let name = *s.pick(&["Options", "User", "Item"]);
+        let generic = s.chance(1, 3);
+        let mut files: Vec<(String, String)> = vec![];
+        let mut entry = String::new();
+        let mut single = String::new();
+        let mut roots: Vec<(String, D)> = vec![];
+        let mut ps = vec![];
+        for (i, path) in picked.iter().enumerate() {
+            let lit = format!("at-{}", path);
+            let extra_key = ["n", "label", "flag"][i % 3];
+            let extra_ty = [D::Num, D::Str, D::Bool][i % 3].clone();
+            let extra_txt = ["number", "string", "boolean"][i % 3];
+            let d = D::Object {
+                props: vec![Prop { key: "kind".into(), ty: D::StrLit(lit.clone()), optional: false }, Prop { key: extra_key.into(), ty: extra_ty, optional: false }],
+                index: None,
+            };
+            if generic {
+                files.push((format!("{}.ts", path), format!("export type {}<T> = {{ kind: \"{}\"; {}: T }};\n", name, lit, extra_key)));
+                single.push_str(&format!("type {}{}<T> = {{ kind: \"{}\"; {}: T }};\n", name, i, lit, extra_key));
+                entry.push_str(&format!("import {{ {} as {}{} }} from \"./{}\";\n", name, name, i, path));
+                ps.push(format!("  P{}: {}{}<{}>;\n", i, name, i, extra_txt));
+            } else {
+                files.push((format!("{}.ts", path), format!("export type {} = {{ kind: \"{}\"; {}: {} }};\n", name, lit, extra_key, extra_txt)));
+                single.push_str(&format!("type {}{} = {{ kind: \"{}\"; {}: {} }};\n", name, i, lit, extra_key, extra_txt));
+                entry.push_str(&format!("import {{ {} as {}{} }} from \"./{}\";\n", name, name, i, path));
+                ps.push(format!("  P{}: {}{};\n", i, name, i));
+            }
+            roots.push((format!("P{}", i), d));
+        }
+        let build = format!("export const Parsers = parse.buildParsers<{{\n{}}}>();\n", ps.join(""));
+        entry.push_str(&build);
+        single.push_str(&build);
+        files.insert(0, ("entry.ts".to_string(), entry));
+        let env = Env { defs: vec![] };
+        let mut values = vec![];
+        for (_, d) in &roots {
+            values.push(gen_values(&env, d, s, Mode::Open, 3, 3, 1));
+        }
+        // every type's members are near misses of the others
+        let members: Vec<Vec<(JsVal, String)>> = values.iter().map(|vs| vs.iter().filter(|v| v.1 == "member").take(2).map(|v| (v.0.clone(), "near".to_string())).collect()).collect();
+        for (i, vs) in values.iter_mut().enumerate() {
+            for (j, m) in members.iter().enumerate() {
+                if i != j {
+                    vs.extend(m.clone());
+                }
+            }
+        }
+        C09Case { env, roots, single, files, styles: vec!["same_name_in_directory_tree".into(), "renamed".into()], negative: None, values }
+    }
+
+    /// a barrel that re-exports one module as a namespace (`export * as v1 from "./v1"`) next to a plain `export *` of
+    /// another module declaring the same names: the unqualified names are those of the plain re-export only, the
+    /// namespace's contents are reachable through `v1.` only (negative variant: a name only the namespace has, imported
+    /// unqualified, must be reported)
+    fn namespace_barrel_case(&self, s: &mut Src) -> C09Case {
+        use crate::den::Prop;
+        let name = *s.pick(&["User", "Item", "Options"]);
+        let dir = *s.pick(&["api/", "", "lib/api/"]);
+        let d1 = D::Object { props: vec![Prop { key: "kind".into(), ty: D::StrLit("v1".into()), optional: false }, Prop { key: "id".into(), ty: D::Num, optional: false }], index: None };
+        let d2 = D::Object { props: vec![Prop { key: "kind".into(), ty: D::StrLit("v2".into()), optional: false }, Prop { key: "id".into(), ty: D::Str, optional: false }], index: None };
+        let v1 = format!("export type {} = {{ kind: \"v1\"; id: number }};\nexport type OnlyInV1 = {{ legacy: true }};\nexport const DEFAULT = \"one\" as const;\n", name);
+        let v2 = format!("export type {} = {{ kind: \"v2\"; id: string }};\nexport const DEFAULT = \"two\" as const;\n", name);
+        let mut lines = vec!["export * as v1 from \"./v1\";".to_string(), "export * from \"./v2\";".to_string()];
+        if s.chance(1, 2) {
+            lines.reverse();
+        }
+        if s.chance(1, 3) {
+            lines.push("export type Unrelated = boolean;".to_string());
+        }
+        let index = lines.join("\n") + "\n";
+        let with_value = s.chance(1, 2);
+        let mut entry = format!("import {{ {}, v1{} }} from \"./{}index\";\n", name, if with_value { ", DEFAULT" } else { "" }, dir);
+        let mut ps = format!("  P0: {};\n  P1: v1.{};\n", name, name);
+        let mut single = format!("type {}V1 = {{ kind: \"v1\"; id: number }};\ntype {}V2 = {{ kind: \"v2\"; id: string }};\n", name, name);
+        let mut sps = format!("  P0: {}V2;\n  P1: {}V1;\n", name, name);
+        let mut roots = vec![("P0".to_string(), d2), ("P1".to_string(), d1)];
+        if with_value {
+            ps.push_str("  P2: typeof DEFAULT;\n  P3: typeof v1.DEFAULT;\n");
+            single.push_str("const DEFAULT_2 = \"two\" as const;\nconst DEFAULT_1 = \"one\" as const;\n");
+            sps.push_str("  P2: typeof DEFAULT_2;\n  P3: typeof DEFAULT_1;\n");
+            roots.push(("P2".to_string(), D::StrLit("two".into())));
+            roots.push(("P3".to_string(), D::StrLit("one".into())));
+        }
+        entry.push_str(&format!("export const Parsers = parse.buildParsers<{{\n{}}}>();\n", ps));
+        single.push_str(&format!("export const Parsers = parse.buildParsers<{{\n{}}}>();\n", sps));
+        let files = vec![
+            ("entry.ts".to_string(), entry),
+            (format!("{}index.ts", dir), index.clone()),
+            (format!("{}v1.ts", dir), v1.clone()),
+            (format!("{}v2.ts", dir), v2.clone()),
+        ];
+        // negative: a name that only the namespace-exported module declares, imported without the namespace
+        let neg_entry = format!("import {{ OnlyInV1 }} from \"./{}index\";\nexport const Parsers = parse.buildParsers<{{\n  P0: OnlyInV1;\n}}>();\n", dir);
+        let negative = Some((
+            vec![("entry.ts".to_string(), neg_entry), (format!("{}index.ts", dir), index), (format!("{}v1.ts", dir), v1), (format!("{}v2.ts", dir), v2)],
+            "OnlyInV1 is exported by ./v1 only, which the barrel re-exports as the namespace v1".to_string(),
+        ));
+        let env = Env { defs: vec![] };
+        let mut values = vec![];
+        for (_, d) in &roots {
+            values.push(gen_values(&env, d, s, Mode::Open, 3, 3, 1));
+        }
+        let members: Vec<Vec<(JsVal, String)>> = values.iter().map(|vs| vs.iter().filter(|v| v.1 == "member").take(2).map(|v| (v.0.clone(), "near".to_string())).collect()).collect();
+        for (i, vs) in values.iter_mut().enumerate() {
+            for (j, m) in members.iter().enumerate() {
+                if i != j {
+                    vs.extend(m.clone());
+                }
+            }
+        }
+        C09Case { env, roots, single, files, styles: vec!["namespace_barrel".into(), "export_star".into()], negative, values }
+    }
+
     pub fn gen_case(&self, s: &mut Src) -> C09Case {
+        if s.chance(1, 12) {
+            return self.same_name_tree_case(s);
+        }
+        if s.chance(1, 14) {
+            return self.namespace_barrel_case(s);
+        }
         let cfg = GenCfg { max_defs: 3, ..GenCfg::default() };
         let n_roots = s.range(1, 2);
         let (env, roots) = gen_env_and_roots(s, &cfg, n_roots);
